@@ -6,8 +6,13 @@ import (
 	"fmt"
 	"os"
 	"sync"
+	"sync/atomic"
 	"time"
 
+	libshare "github.com/celestiaorg/go-square/v4/share"
+	"github.com/celestiaorg/rsmt2d"
+
+	"github.com/celestiaorg/celestia-node/header"
 	"github.com/celestiaorg/celestia-node/share/eds/byzantine"
 	"github.com/celestiaorg/celestia-node/share/shwap"
 	"github.com/celestiaorg/celestia-node/share/shwap/getters"
@@ -282,4 +287,156 @@ func (c *c06) runCascadeCase(ctx context.Context, net *c06Net, local *store.Stor
 			run.Count("cascade/error-is-other", 1)
 		}
 	}
+}
+
+// ---------------------------------------------------------------------------------------------
+// time-split family: a cascade member that keeps the request busy until its context ends must not
+// be granted the caller's whole deadline while other members (possibly holding an honest copy)
+// wait behind it. Decided on the deadlines the real cascade hands to scripted members — logical, no
+// wall clock in the verdict: the probing members record ctx.Deadline() and fail at once.
+
+type c06SplitMember struct {
+	mu       sync.Mutex
+	calls    int
+	deadline time.Time
+	hasDl    bool
+	active   *atomic.Int32
+	overlap  *atomic.Bool
+	serve    shwap.Getter // nil: fails with ErrNotFound after recording
+}
+
+func (m *c06SplitMember) enter(ctx context.Context) func() {
+	if m.active.Add(1) > 1 {
+		m.overlap.Store(true)
+	}
+	m.mu.Lock()
+	m.calls++
+	m.deadline, m.hasDl = ctx.Deadline()
+	m.mu.Unlock()
+	return func() { m.active.Add(-1) }
+}
+
+func (m *c06SplitMember) GetSamples(ctx context.Context, h *header.ExtendedHeader, idx []shwap.SampleCoords) ([]shwap.Sample, error) {
+	defer m.enter(ctx)()
+	if m.serve != nil {
+		return m.serve.GetSamples(ctx, h, idx)
+	}
+	return make([]shwap.Sample, len(idx)), shwap.ErrNotFound
+}
+
+func (m *c06SplitMember) GetEDS(ctx context.Context, h *header.ExtendedHeader) (*rsmt2d.ExtendedDataSquare, error) {
+	defer m.enter(ctx)()
+	if m.serve != nil {
+		return m.serve.GetEDS(ctx, h)
+	}
+	return nil, shwap.ErrNotFound
+}
+
+func (m *c06SplitMember) GetRow(ctx context.Context, h *header.ExtendedHeader, i int) (shwap.Row, error) {
+	defer m.enter(ctx)()
+	if m.serve != nil {
+		return m.serve.GetRow(ctx, h, i)
+	}
+	return shwap.Row{}, shwap.ErrNotFound
+}
+
+func (m *c06SplitMember) GetNamespaceData(ctx context.Context, h *header.ExtendedHeader, ns libshare.Namespace) (shwap.NamespaceData, error) {
+	defer m.enter(ctx)()
+	if m.serve != nil {
+		return m.serve.GetNamespaceData(ctx, h, ns)
+	}
+	return nil, shwap.ErrNotFound
+}
+
+func (m *c06SplitMember) GetRangeNamespaceData(ctx context.Context, h *header.ExtendedHeader, from, to int) (shwap.RangeNamespaceData, error) {
+	defer m.enter(ctx)()
+	if m.serve != nil {
+		return m.serve.GetRangeNamespaceData(ctx, h, from, to)
+	}
+	return shwap.RangeNamespaceData{}, shwap.ErrNotFound
+}
+
+func (c *c06) cascadeSplitPhase() {
+	run := c.run
+	ctx := context.Background()
+	st, err := store.NewStore(store.DefaultParameters(), c.t.TempDir())
+	if err != nil {
+		run.Inconclusive("cascade split store setup failed: " + err.Error())
+		return
+	}
+	defer st.Stop(ctx) //nolint:errcheck
+	deadlines := []time.Duration{400 * time.Millisecond, 1500 * time.Millisecond, 3 * time.Second, 4900 * time.Millisecond, 8 * time.Second, 20 * time.Second, 90 * time.Second, 5 * time.Minute}
+	idx := 0
+	for rep := 0; rep < vkit.Scale(1, 4); rep++ {
+		for _, k := range []int{2, 3, 4} {
+			for _, dl := range deadlines {
+				for kind := c06Kind(0); kind < c06Kinds; kind++ {
+					idx++
+					r := c.rng.SplitN("cascade-split", idx)
+					q := c06GenReq(r.Split("req"), kind, vkit.Pick(r.Split("sq"), c.sqs), idx)
+					height := uint64(900000 + idx)
+					if err := st.PutODSQ4(ctx, q.s.sq.Roots, height, q.s.sq.EDS); err != nil {
+						run.Inconclusive("cascade split store put failed: " + err.Error())
+						return
+					}
+					active, overlap := &atomic.Int32{}, &atomic.Bool{}
+					members := make([]*c06SplitMember, k)
+					chain := make([]shwap.Getter, k)
+					for i := range members {
+						members[i] = &c06SplitMember{active: active, overlap: overlap}
+						chain[i] = members[i]
+					}
+					members[k-1].serve = store.NewGetter(st) // the honest copy is behind k-1 members that fail
+					hdr := vkit.MinimalHeader(height, q.s.sq.Roots, time.Now())
+					callCtx, cancel := context.WithTimeout(ctx, dl)
+					callDl, _ := callCtx.Deadline()
+					var res c06Result
+					desc := map[string]any{"members": k, "caller_deadline": dl.String(), "request": q.String(), "square": q.s.sq.Desc()}
+					panicked := run.NoPanic("C06 cascade/split "+c06KindNames[kind]+":", desc, func() {
+						res = c06Call(callCtx, getters.NewCascadeGetter(chain), q, hdr)
+					})
+					cancel()
+					if panicked {
+						continue
+					}
+					run.Eval(1)
+					run.Count("cascade/split/cases", 1)
+					run.Distinct(fmt.Sprintf("cascade-split|%d|%d|%s", k, kind, dl))
+					if overlap.Load() {
+						// members asked in parallel: time granted to one does not starve another
+						run.Count("cascade/split/members-asked-concurrently(not judged)", 1)
+						continue
+					}
+					var granted []string
+					for i, m := range members {
+						m.mu.Lock()
+						calls, mdl, has := m.calls, m.deadline, m.hasDl
+						m.mu.Unlock()
+						if calls == 0 {
+							granted = append(granted, "not asked")
+							continue
+						}
+						if !has {
+							granted = append(granted, "no deadline")
+						} else {
+							granted = append(granted, fmt.Sprintf("caller deadline %+v", mdl.Sub(callDl).Round(time.Millisecond)))
+						}
+						if i < k-1 && (!has || !mdl.Before(callDl)) {
+							desc["granted"] = granted
+							desc["member"] = i
+							c.violation("cascade/split", q, "a member with other members behind it is granted the caller's whole remaining deadline (a silent peer there would starve the honest source)", desc)
+						}
+					}
+					if res.err == nil {
+						run.Count("cascade/split/served-by-the-last-member", 1)
+					} else if members[k-1].calls == 0 {
+						run.Count("cascade/split/last-member-never-asked", 1)
+					}
+					c.judge("cascade/split", q, &res, func() map[string]any { desc["granted"] = granted; return desc })
+				}
+			}
+		}
+	}
+	run.Require("cascade/split/cases", 100)
+	run.Require("cascade/split/served-by-the-last-member", 90)
 }
